@@ -21,6 +21,9 @@ def run(rep):
     e4(rep, w)
     e5(rep, w)
     e6(rep, w)
+    e7(rep, w)
+    import c03
+    c03.t3(rep, w)     # precedence levels: the table the binary-operator parser climbs
     c04.b3(rep, w)
 
 
@@ -251,3 +254,30 @@ def e6(rep, w):
     # every consumer of a program-supplied index / range bound goes through that helper
     users = sorted({f.path for (f, bi, t) in c01.callers_of(w, 'yarel::utils::validate_integer')})
     r.check(len(users) >= 2, 'validate_integer is the shared classifier (%d callers)' % len(users), 'validate_integer has %d callers' % len(users))
+
+
+def e7(rep, w):
+    """`x = v` for an undeclared global is an error and nothing else: the NameError path must leave the module's table as it was
+    (the handler that catches the error - or the next REPL line - must not find the variable defined)"""
+    r = rep.rule('E7', 'assigning to an undeclared global raises NameError and leaves the globals unchanged', floor=1)
+    f = w.require_fn('yarel::vm::Vm::set_global_impl', 'C05')
+    org = origins(f)
+
+    def on_attrs(t):
+        return bool(t['args']) and 'attributes' in operand_fields(f, org, t['args'][0])
+    ins = {bi for bi, t in f.calls() if strip_generics(callee_name(t) or '') in ('std::collections::HashMap::insert', 'std::collections::hash_map::Entry::or_insert') and on_attrs(t)}
+    rem = {bi for bi, t in f.calls() if strip_generics(callee_name(t) or '') == 'std::collections::HashMap::remove' and on_attrs(t)}
+    errs = {bi for bi, t in f.calls() if callee_name(t) == 'yarel::vm::Vm::try_handle_error'}
+    if not ins or not errs:
+        raise Broken('C05', 'anchor', 'set_global_impl: insert / error raise not found')
+    # (path-insensitive on purpose: `inserted-and-was-new` guards both the undo and the error, and following both branches separately
+    # would invent the infeasible path "not new, yet error") - either an undo exists on a branch taken after the insertion, or the name
+    # is looked up before anything is inserted
+    dom = f.dominators()
+    lookups = {bi for bi, t in f.calls() if strip_generics(callee_name(t) or '') in ('std::collections::HashMap::contains_key', 'std::collections::HashMap::get',
+                                                                                     'std::collections::HashMap::get_mut') and on_attrs(t)}
+    undo = any(any(i in dom.get(x, ()) for i in ins) for x in rem)
+    checked_first = all(any(l_ in dom.get(i, ()) for l_ in lookups) for i in ins)
+    bad = not (undo or checked_first)
+    r.check(not bad, 'set_global_impl: the NameError path undoes (or never makes) the insertion', 'set_global_impl can raise the NameError with the name already inserted and not removed: after the '
+            'error is caught (or on the next REPL line) the undeclared variable exists', f.loc())
